@@ -341,41 +341,52 @@ def check_complete(V, prop, results, traces, path_of=lambda t: t[0], what=lambda
 SEG_DECISIVE = {"C01", "C03", "C07", "C09", "C13", "C16", "C18"}      # properties for which a malformed slice table is a violation
 
 
-def seg_pass(V, prop, paths, tag="segs"):
-    """Move the slice-table dumps (`seg` events) of the given traces into one file and validate it with SegTrace (MiSegValid): the
-    traces keep everything else.  Guard failures are violations for the properties in SEG_DECISIVE, notes for the others."""
+HEAP_DECISIVE = {"C01", "C03", "C08", "C10", "C12", "C16"}      # properties for which malformed page queues of a heap are a violation
+
+
+def _snapshot_pass(V, prop, paths, tag, kind, prefix, module, decisive, what):
     od = outdir(prop)
-    allp = os.path.join(od, "segs_%s_%s.ndjson" % (prop, tag))
+    allp = os.path.join(od, "%s_%s_%s.ndjson" % (prefix, prop, tag))
     n = 0
+    head = '{"e":"%s"' % kind
     with open(allp, "w") as fs:
         for pth in paths:
             if not os.path.exists(pth):
                 continue
-            with open(pth) as f, open(pth + ".noseg", "w") as fa:
+            with open(pth) as f, open(pth + ".nosnap", "w") as fa:
                 for l in f:
-                    if l.startswith('{"e":"seg"'):
+                    if l.startswith(head):
                         fs.write(l); n += 1
                     else:
                         fa.write(l)
-            os.replace(pth + ".noseg", pth)
+            os.replace(pth + ".nosnap", pth)
     if n == 0:
-        return {"segment_tables_validated": 0}
-    r = tlc_tv(allp, module="SegTrace", cfg="SegTrace.cfg", timeout=1800, xmx="4g")
+        return 0
+    r = tlc_tv(allp, module=module, cfg=module + ".cfg", timeout=1800, xmx="4g")
     if r["status"] in ("error", "timeout"):
-        raise InfraError("SegTrace validation %s: %s" % (r["status"], r["out"][-2000:]))
+        raise InfraError("%s validation %s: %s" % (module, r["status"], r["out"][-2000:]))
     seen = {}
     for name, line, detail in r["guardfails"]:
         seen.setdefault(name, (line, detail, 0))
         seen[name] = (seen[name][0], seen[name][1], seen[name][2] + 1)
     for name, (line, detail, cnt) in sorted(seen.items()):
-        if prop in SEG_DECISIVE:
+        if prop in decisive:
             keep = os.path.join(keepdir(prop), os.path.basename(allp))
             shutil.copyfile(allp, keep)
-            V.violation("%s:seg" % name, "%s:%d" % (keep, line), "slice table of a segment is not well-formed: %s (%d tables)" % (name, cnt))
+            V.violation("%s:%s" % (name, kind), "%s:%d" % (keep, line), "%s is not well-formed: %s (%d dumps)" % (what, name, cnt))
         else:
-            V.note("slice-table guard (decisive for %s) failed on %d table(s): %s" % (",".join(sorted(SEG_DECISIVE)), cnt, name))
-    log("  TLC validated %d segment slice tables (SegTrace)" % n)
-    return {"segment_tables_validated": n}
+            V.note("%s guard (decisive for %s) failed on %d dump(s): %s" % (what, ",".join(sorted(decisive)), cnt, name))
+    log("  TLC validated %d %s (%s)" % (n, what + "s", module))
+    return n
+
+
+def seg_pass(V, prop, paths, tag="segs"):
+    """Move the slice-table dumps (`seg` events) and the heap dumps (`heap` events) of the given traces into one file each and validate them
+    with SegTrace (MiSegValid) / HeapTrace (MiHeapValid): the traces keep everything else.  Guard failures are violations for the properties
+    in SEG_DECISIVE / HEAP_DECISIVE, notes for the others."""
+    ns = _snapshot_pass(V, prop, paths, tag, "seg", "segs", "SegTrace", SEG_DECISIVE, "segment slice table")
+    nh = _snapshot_pass(V, prop, paths, tag, "heap", "heaps", "HeapTrace", HEAP_DECISIVE, "heap page-queue dump")
+    return {"segment_tables_validated": ns, "heap_dumps_validated": nh}
 
 
 def sample_lines(path, n=3, maxlen=400):
